@@ -28,6 +28,17 @@ Transforms the sid string into a valid sid dict, and reverse.
 """
 
 
+def _is_exact(r: Resolver, template: str, data: dict, sid: str) -> bool:
+    """
+    Checks that the resolved data renders back to exactly the given sid string.
+
+    The resolver anchors its patterns with "$", which also matches before a trailing newline:
+    without this check, "hamlet/a" followed by a newline would resolve,
+    although the last segment is not accepted by its pattern.
+    """
+    return r.get_format_for(template).format(**data) == sid
+
+
 @cache
 def sid_to_dict(sid: str, _type: Optional[str] = None) -> Tuple[str, dict] | Tuple[None, None]:
     """
@@ -58,6 +69,15 @@ def sid_to_dict(sid: str, _type: Optional[str] = None) -> Tuple[str, dict] | Tup
     if not data:
         return None, None
 
+    if not _is_exact(r, template, data, sid):
+        if _type:
+            return None, None
+        # the first match was not exact: we look for the first exact one.
+        exact = [(t, d) for t, d in r.resolve_all(sid).items() if _is_exact(r, t, d, sid)]
+        if not exact:
+            return None, None
+        template, data = exact[0]
+
     return template, data
 
 
@@ -84,7 +104,8 @@ def sid_to_dicts(sid: str) -> dict[str, dict]:
     """
     r = Resolver.get("sid")
 
-    return r.resolve_all(sid)
+    found = r.resolve_all(sid)
+    return {template: data for template, data in found.items() if _is_exact(r, template, data, sid)}
 
 
 def dict_to_sid(data: dict, _type: Optional[str] = None) -> str:
